@@ -3,12 +3,17 @@ package main
 import (
 	"fmt"
 	"math/big"
+	"sort"
+	"strings"
 
 	sdk "github.com/cosmos/cosmos-sdk/types"
+	"github.com/cosmos/cosmos-sdk/types/query"
 	banktypes "github.com/cosmos/cosmos-sdk/x/bank/types"
 
+	bcntypes "github.com/unification-com/mainchain/x/beacon/types"
 	enttypes "github.com/unification-com/mainchain/x/enterprise/types"
 	strtypes "github.com/unification-com/mainchain/x/stream/types"
+	wrktypes "github.com/unification-com/mainchain/x/wrkchain/types"
 )
 
 // monitors evaluate the properties directly on the real application (independent of the Coq
@@ -37,10 +42,25 @@ type monitors struct {
 	spentBefore  map[int]sdk.Int
 	digestBefore string
 	strBefore    *strSnap
+	// C06: payer funds in the check state before CheckTx
+	checkLiquid sdk.Int
+	checkLocked sdk.Int
+	// C03: raised orders before BeginBlock
+	raisedBefore   []enttypes.EnterpriseUndPurchaseOrder
+	acceptedBefore []enttypes.EnterpriseUndPurchaseOrder
+	paramsBefore   enttypes.Params
+	lockedAtBegin  map[string]sdk.Int
+	// C09: static registration fields as first seen
+	regStatic map[string]string
+	regNext   map[bool]uint64
+	// C08: limits before the tx
+	limitBefore map[string]uint64
+	// C13: entitlement of a single top-level message, evaluated before the tx
+	entitledBefore int // -1 unknown / not applicable, 0 no, 1 yes
 }
 
 func newMonitors(h *history) *monitors {
-	return &monitors{h: h, recLog: map[string]string{}, terminal: map[uint64]string{}}
+	return &monitors{h: h, recLog: map[string]string{}, terminal: map[uint64]string{}, regStatic: map[string]string{}, regNext: map[bool]uint64{}, limitBefore: map[string]uint64{}, entitledBefore: -1}
 }
 
 func (m *monitors) fail(prop string, class int, what string) {
@@ -60,13 +80,14 @@ func (m *monitors) supplies() map[string]sdk.Int {
 
 func (m *monitors) beforeBegin() {
 	c := m.h.c
-	// the block has not begun: read the committed/check state
-	ctx := c.ctxFor(true)
+	// the block has not begun: read the committed state
+	ctx := c.committedCtx()
 	m.supplyBefore = map[string]sdk.Int{}
 	for _, d := range denoms {
 		m.supplyBefore[d] = c.app.BankKeeper.GetSupply(ctx, d).Amount
 	}
 	m.acceptedAmt = sdk.ZeroInt()
+	m.snapshotOrders()
 	next, _ := c.app.EnterpriseKeeper.GetHighestPurchaseOrderID(ctx)
 	for id := uint64(1); id < next; id++ {
 		if po, ok := c.app.EnterpriseKeeper.GetPurchaseOrder(ctx, id); ok && po.Status == enttypes.StatusAccepted && po.Amount.Denom == "nund" {
@@ -92,6 +113,7 @@ func (m *monitors) afterBegin() {
 	if m.acceptedAmt.IsPositive() {
 		m.h.flags["mint_blocks"]++
 	}
+	m.checkTally()
 	m.invariants("BeginBlock")
 }
 
@@ -139,6 +161,7 @@ func (m *monitors) beforeTx(g genTx) {
 
 func (m *monitors) afterTx(g genTx, res txResult, cls int, check bool) {
 	if check {
+		m.checkAdmission(g, cls)
 		return
 	}
 	now := m.supplies()
@@ -238,10 +261,14 @@ func (m *monitors) afterTx(g genTx, res txResult, cls int, check bool) {
 
 func (m *monitors) afterEnd() { m.invariants("EndBlock") }
 
+func pageReq(key []byte, limit uint64) *query.PageRequest {
+	return &query.PageRequest{Key: key, Limit: limit}
+}
+
 func (m *monitors) afterCommit() {
 	// C02: at the block boundary all balances sum to the supply, per denomination
 	c := m.h.c
-	ctx := c.ctxFor(true)
+	ctx := c.committedCtx()
 	sums := map[string]*big.Int{}
 	c.app.BankKeeper.IterateAllBalances(ctx, func(_ sdk.AccAddress, coin sdk.Coin) bool {
 		if sums[coin.Denom] == nil {
@@ -271,6 +298,8 @@ func (m *monitors) chainHalted(what string) {
 func (m *monitors) invariants(where string) {
 	c := m.h.c
 	ctx := c.ctx()
+	defer m.registryInvariants(where)
+	m.paramsAndSupply(where)
 	// C10: stream escrow = sum of deposits, per denomination
 	dep := map[string]*big.Int{}
 	c.app.StreamKeeper.IterateAllStreams(ctx, func(_, _ sdk.AccAddress, st strtypes.Stream) bool {
@@ -408,4 +437,369 @@ func (h *history) haltClass() int {
 		}
 	}
 	return 0
+}
+
+// ---- C06: CheckTx admits a registry transaction only with the exact fee ----
+
+type feeNeed struct {
+	wrk, bcn           sdk.Int
+	hasWrk, hasBcn     bool
+	nestedWrk, nestedB bool
+	nestedSum          sdk.Int
+}
+
+func (m *monitors) feeNeeds(ctx sdk.Context, msgs []sdk.Msg, depth int, fn *feeNeed) {
+	wp := m.h.c.app.WrkchainKeeper.GetParams(ctx)
+	bp := m.h.c.app.BeaconKeeper.GetParams(ctx)
+	for _, msg := range msgs {
+		add := func(isWrk bool, amt sdk.Int) {
+			if depth == 0 {
+				if isWrk {
+					fn.wrk, fn.hasWrk = fn.wrk.Add(amt), true
+				} else {
+					fn.bcn, fn.hasBcn = fn.bcn.Add(amt), true
+				}
+			} else {
+				fn.nestedSum = fn.nestedSum.Add(amt)
+				if isWrk {
+					fn.nestedWrk = true
+				} else {
+					fn.nestedB = true
+				}
+			}
+		}
+		switch t := msg.(type) {
+		case *wrktypes.MsgRegisterWrkChain:
+			add(true, sdk.NewIntFromUint64(wp.FeeRegister))
+		case *wrktypes.MsgRecordWrkChainBlock:
+			add(true, sdk.NewIntFromUint64(wp.FeeRecord))
+		case *wrktypes.MsgPurchaseWrkChainStateStorage:
+			add(true, sdk.NewIntFromUint64(wp.FeePurchaseStorage).Mul(sdk.NewIntFromUint64(t.Number)))
+		case *bcntypes.MsgRegisterBeacon:
+			add(false, sdk.NewIntFromUint64(bp.FeeRegister))
+		case *bcntypes.MsgRecordBeaconTimestamp:
+			add(false, sdk.NewIntFromUint64(bp.FeeRecord))
+		case *bcntypes.MsgPurchaseBeaconStateStorage:
+			add(false, sdk.NewIntFromUint64(bp.FeePurchaseStorage).Mul(sdk.NewIntFromUint64(t.Number)))
+		default:
+			if ex, ok := msg.(interface{ GetMessages() ([]sdk.Msg, error) }); ok {
+				if inner, err := ex.GetMessages(); err == nil {
+					m.feeNeeds(ctx, inner, depth+1, fn)
+				}
+			}
+		}
+	}
+}
+
+func (m *monitors) beforeCheck(g genTx) {
+	c := m.h.c
+	ctx := c.ctxFor(true)
+	payer := c.addrOf(g.msgs[0].signer)
+	m.checkLiquid = c.app.BankKeeper.SpendableCoins(ctx, payer).AmountOf("nund")
+	m.checkLocked = c.app.EnterpriseKeeper.GetLockedUndAmountForAccount(ctx, payer).Amount
+}
+
+func (m *monitors) checkAdmission(g genTx, cls int) {
+	c := m.h.c
+	ctx := c.ctxFor(true)
+	fn := feeNeed{wrk: sdk.ZeroInt(), bcn: sdk.ZeroInt(), nestedSum: sdk.ZeroInt()}
+	m.feeNeeds(ctx, g.spec.msgs, 0, &fn)
+	if !(fn.hasWrk || fn.hasBcn || fn.nestedWrk || fn.nestedB) {
+		return
+	}
+	m.h.flags["checktx_registry"]++
+	if cls != 0 {
+		return
+	}
+	m.h.flags["checktx_registry_admitted"]++
+	sent := g.spec.fee.AmountOf("nund")
+	want := fn.wrk.Add(fn.bcn).Add(fn.nestedSum)
+	class := 0
+	if fn.nestedWrk || fn.nestedB {
+		class = 2 // listed: registry message nested in MsgExec
+	} else if fn.hasWrk && fn.hasBcn {
+		class = 1 // listed: WRKChain and BEACON messages in one transaction
+	}
+	if !sent.Equal(want) {
+		m.fail("C06", class, fmt.Sprintf("CheckTx admitted a registry transaction offering %snund where the operations cost %snund (top-level wrk %s, beacon %s, nested %s)", sent, want, fn.wrk, fn.bcn, fn.nestedSum))
+	} else if m.checkLiquid.Add(m.checkLocked).LT(want) {
+		m.fail("C06", class, fmt.Sprintf("CheckTx admitted a registry transaction whose payer holds %s liquid + %s locked < fee %s", m.checkLiquid, m.checkLocked, want))
+	}
+}
+
+// ---- C14: a failed transaction changes nothing but fee / unlock effects ----
+
+func (m *monitors) atomicity(g genTx, cls int, obs []string) {
+	if cls == 0 {
+		return
+	}
+	for _, o := range obs {
+		if strings.HasSuffix(o, ", VNone)") && m.h.obs.fresh[o] {
+			continue // an entity looked at for the first time and found absent
+		}
+		ok := false
+		for _, p := range []string{"(QBal ", "(QLocked ", "(QSpent ", "(QTotLocked", "(QTotSpent", "(QSupplyOf ", "(QEntSupply "} {
+			if strings.HasPrefix(o, p) {
+				ok = true
+			}
+		}
+		if !ok {
+			m.fail("C14", 0, fmt.Sprintf("a failed transaction (class %d) changed %s", cls, o))
+			m.fail("C13", 0, fmt.Sprintf("a rejected transaction (class %d, signatures ok=%v) changed %s", cls, g.sigOK, o))
+		}
+	}
+	if !g.sigOK {
+		for _, o := range obs {
+			if !(strings.HasSuffix(o, ", VNone)") && m.h.obs.fresh[o]) {
+				m.fail("C13", 0, fmt.Sprintf("a transaction without valid signatures changed state: %s", o))
+			}
+		}
+	}
+}
+
+// ---- C03: the tally rule and next-block completion, recomputed independently ----
+
+func (m *monitors) snapshotOrders() {
+	c := m.h.c
+	ctx := c.committedCtx()
+	ek := c.app.EnterpriseKeeper
+	m.raisedBefore, m.acceptedBefore = nil, nil
+	m.paramsBefore = ek.GetParams(ctx)
+	m.lockedAtBegin = map[string]sdk.Int{}
+	next, _ := ek.GetHighestPurchaseOrderID(ctx)
+	for id := uint64(1); id < next; id++ {
+		if po, ok := ek.GetPurchaseOrder(ctx, id); ok {
+			switch po.Status {
+			case enttypes.StatusRaised:
+				m.raisedBefore = append(m.raisedBefore, po)
+			case enttypes.StatusAccepted:
+				m.acceptedBefore = append(m.acceptedBefore, po)
+			}
+		}
+	}
+	for i := range c.accts {
+		m.lockedAtBegin[c.addrOf(i).String()] = ek.GetLockedUndAmountForAccount(ctx, c.addrOf(i)).Amount
+	}
+}
+
+func (m *monitors) checkTally() {
+	c := m.h.c
+	ctx := c.ctx()
+	ek := c.app.EnterpriseKeeper
+	p := m.paramsBefore
+	nSigners := int64(len(strings.Split(p.EntSigners, ",")))
+	now := uint64(c.now.Unix())
+	for _, po := range m.raisedBefore {
+		acc, rej := int64(0), int64(0)
+		signers := map[string]bool{}
+		for _, d := range po.Decisions {
+			if signers[d.Signer] {
+				m.fail("C03", 0, fmt.Sprintf("order %d carries two decisions of signer %s", po.Id, d.Signer))
+			}
+			signers[d.Signer] = true
+			if d.Decision == enttypes.StatusAccepted {
+				acc++
+			} else if d.Decision == enttypes.StatusRejected {
+				rej++
+			}
+		}
+		want := enttypes.StatusRaised
+		switch {
+		case now-po.RaiseTime >= p.DecisionTimeLimit && acc < int64(p.MinAccepts):
+			want = enttypes.StatusRejected
+		case rej > nSigners-int64(p.MinAccepts):
+			want = enttypes.StatusRejected
+		case acc >= int64(p.MinAccepts):
+			want = enttypes.StatusAccepted
+		}
+		got, _ := ek.GetPurchaseOrder(ctx, po.Id)
+		if got.Status != want {
+			m.fail("C03", 0, fmt.Sprintf("BeginBlock at %d: order %d (raised %d, %d accepts, %d rejects; %d signers, min %d, limit %d s) is %s, the rule says %s",
+				now, po.Id, po.RaiseTime, acc, rej, nSigners, p.MinAccepts, p.DecisionTimeLimit, got.Status, want))
+		}
+		if want != enttypes.StatusRaised {
+			m.h.flags["orders_decided"]++
+		}
+	}
+	credited := map[string]sdk.Int{}
+	for _, po := range m.acceptedBefore {
+		got, _ := ek.GetPurchaseOrder(ctx, po.Id)
+		if got.Status != enttypes.StatusCompleted {
+			m.fail("C03", 0, fmt.Sprintf("order %d was accepted before this BeginBlock and is %s after it", po.Id, got.Status))
+		}
+		if _, ok := credited[po.Purchaser]; !ok {
+			credited[po.Purchaser] = sdk.ZeroInt()
+		}
+		credited[po.Purchaser] = credited[po.Purchaser].Add(po.Amount.Amount)
+		m.h.flags["orders_completed"]++
+	}
+	for i := range c.accts {
+		a := c.addrOf(i).String()
+		want, ok := credited[a]
+		if !ok {
+			want = sdk.ZeroInt()
+		}
+		delta := ek.GetLockedUndAmountForAccount(ctx, c.addrOf(i)).Amount.Sub(m.lockedAtBegin[a])
+		if !delta.Equal(want) {
+			m.fail("C03", 0, fmt.Sprintf("BeginBlock credited %s locked eFUND to account %d, its completed orders amount to %s", delta, i, want))
+			m.fail("C05", 0, fmt.Sprintf("BeginBlock changed locked eFUND of account %d by %s (completed orders: %s)", i, delta, want))
+		}
+	}
+}
+
+// ---- C08 / C09: retention, limits, registration metadata ----
+
+func (m *monitors) registryInvariants(where string) {
+	c := m.h.c
+	ctx := c.ctx()
+	for _, wrk := range []bool{true, false} {
+		var next uint64
+		if wrk {
+			next, _ = c.app.WrkchainKeeper.GetHighestWrkChainID(ctx)
+		} else {
+			next, _ = c.app.BeaconKeeper.GetHighestBeaconID(ctx)
+		}
+		if prev, ok := m.regNext[wrk]; ok && next < prev {
+			m.fail("C09", 0, fmt.Sprintf("after %s: next registration id went back from %d to %d", where, prev, next))
+		}
+		m.regNext[wrk] = next
+		for id := uint64(1); id < next && id < 100; id++ {
+			var static string
+			var num, lowest, last, limit uint64
+			var stored []uint64
+			if wrk {
+				wc, ok := c.app.WrkchainKeeper.GetWrkChain(ctx, id)
+				if !ok {
+					m.fail("C09", 0, fmt.Sprintf("after %s: wrkchain id %d below the next id %d does not exist", where, id, next))
+					continue
+				}
+				static = fmt.Sprintf("%d|%s|%s|%s|%s|%s|%d", wc.WrkchainId, wc.Moniker, wc.Name, wc.Genesis, wc.Type, wc.Owner, wc.RegTime)
+				num, lowest, last = wc.NumBlocks, wc.LowestHeight, wc.Lastblock
+				lim, _ := c.app.WrkchainKeeper.GetWrkChainStorageLimit(ctx, id)
+				limit = lim.InStateLimit
+				for _, b := range c.app.WrkchainKeeper.GetAllWrkChainBlockHashes(ctx, id) {
+					stored = append(stored, b.Height)
+				}
+			} else {
+				b, ok := c.app.BeaconKeeper.GetBeacon(ctx, id)
+				if !ok {
+					m.fail("C09", 0, fmt.Sprintf("after %s: beacon id %d below the next id %d does not exist", where, id, next))
+					continue
+				}
+				static = fmt.Sprintf("%d|%s|%s|%s|%d", b.BeaconId, b.Moniker, b.Name, b.Owner, b.RegTime)
+				num, lowest, last = b.NumInState, b.FirstIdInState, b.LastTimestampId
+				lim, _ := c.app.BeaconKeeper.GetBeaconStorageLimit(ctx, id)
+				limit = lim.InStateLimit
+				for _, t := range c.app.BeaconKeeper.GetAllBeaconTimestamps(ctx, id) {
+					stored = append(stored, t.TimestampId)
+				}
+			}
+			key := fmt.Sprintf("%v|%d", wrk, id)
+			if old, ok := m.regStatic[key]; ok && old != static {
+				m.fail("C09", 0, fmt.Sprintf("after %s: registration %s metadata changed from %s to %s", where, key, old, static))
+			}
+			m.regStatic[key] = static
+			// accepted keys of this registration, in acceptance (= ascending) order
+			var accepted []uint64
+			w := uint64(0)
+			if wrk {
+				w = 1
+			}
+			for _, rk := range m.h.obs.recList {
+				if rk[0] == w && rk[1] == id {
+					if _, seen := m.recLog[fmt.Sprintf("%d|%d|%d", rk[0], rk[1], rk[2])]; seen {
+						accepted = append(accepted, rk[2])
+					}
+				}
+			}
+			sort.Slice(accepted, func(i, j int) bool { return accepted[i] < accepted[j] })
+			sort.Slice(stored, func(i, j int) bool { return stored[i] < stored[j] })
+			if uint64(len(stored)) != num || num > limit {
+				m.fail("C08", 0, fmt.Sprintf("after %s: registration %s reports %d in state (limit %d) but %d records can be listed", where, key, num, limit, len(stored)))
+			}
+			if len(stored) > 0 && (stored[0] != lowest || stored[len(stored)-1] != last) {
+				m.fail("C08", 0, fmt.Sprintf("after %s: registration %s reports lowest %d last %d, stored keys are %v", where, key, lowest, last, stored))
+			}
+			if len(accepted) >= len(stored) {
+				tail := accepted[len(accepted)-len(stored):]
+				for i := range stored {
+					if tail[i] != stored[i] {
+						m.fail("C08", 0, fmt.Sprintf("after %s: registration %s holds %v, the newest %d accepted records are %v", where, key, stored, len(stored), tail))
+						break
+					}
+				}
+			}
+			if old, ok := m.limitBefore[key]; ok && limit < old {
+				m.fail("C08", 0, fmt.Sprintf("after %s: limit of %s dropped from %d to %d", where, key, old, limit))
+			}
+			m.limitBefore[key] = limit
+		}
+	}
+}
+
+// ---- C16 / C17: stored parameters are valid; supply queries ----
+
+func (m *monitors) paramsAndSupply(where string) {
+	c := m.h.c
+	ctx := c.ctx()
+	if err := c.app.EnterpriseKeeper.GetParams(ctx).Validate(); err != nil {
+		m.fail("C16", 0, fmt.Sprintf("after %s: stored enterprise params invalid: %v", where, err))
+	}
+	if err := c.app.WrkchainKeeper.GetParams(ctx).Validate(); err != nil {
+		m.fail("C16", 0, fmt.Sprintf("after %s: stored wrkchain params invalid: %v", where, err))
+	}
+	if err := c.app.BeaconKeeper.GetParams(ctx).Validate(); err != nil {
+		m.fail("C16", 0, fmt.Sprintf("after %s: stored beacon params invalid: %v", where, err))
+	}
+	if err := c.app.StreamKeeper.GetParams(ctx).Validate(); err != nil {
+		m.fail("C16", 0, fmt.Sprintf("after %s: stored stream params invalid: %v", where, err))
+	}
+	ek := c.app.EnterpriseKeeper
+	denom := ek.GetParamDenom(ctx)
+	tl := ek.GetTotalLockedUnd(ctx)
+	for _, d := range denoms {
+		sup := c.app.BankKeeper.GetSupply(ctx, d).Amount
+		want := sup
+		if d == denom {
+			want = sup.Sub(tl.Amount)
+		}
+		ok := safely(func() {
+			got := ek.GetSupplyOfWithLockedNundRemoved(ctx, d).Amount
+			if !got.Equal(want) || got.IsNegative() {
+				m.fail("C17", 0, fmt.Sprintf("after %s: SupplyOf(%s) = %s, bank supply %s, total locked %s", where, d, got, sup, tl))
+			}
+		})
+		if !ok {
+			m.fail("C17", 0, fmt.Sprintf("after %s: SupplyOf(%s) panicked", where, d))
+		}
+	}
+	safely(func() {
+		es := ek.GetEnterpriseSupplyIncludingLockedUnd(ctx)
+		if es.Locked+es.Amount != es.Total || !sdk.NewIntFromUint64(es.Locked).Equal(tl.Amount) {
+			m.fail("C17", 0, fmt.Sprintf("after %s: EnterpriseSupply locked %d + unlocked %d != total %d (total locked %s)", where, es.Locked, es.Amount, es.Total, tl))
+		}
+	})
+	// paginated total supply: each denomination exactly once, whatever the page size
+	for _, limit := range []uint64{1, 2, 100} {
+		seen := map[string]int{}
+		var key []byte
+		for page := 0; page < 20; page++ {
+			coins, pr, err := ek.GetTotalSupplyWithLockedNundRemoved(ctx, pageReq(key, limit))
+			if err != nil {
+				break
+			}
+			for _, coin := range coins {
+				seen[coin.Denom]++
+			}
+			if pr == nil || len(pr.NextKey) == 0 {
+				break
+			}
+			key = pr.NextKey
+		}
+		for _, d := range denoms {
+			if seen[d] != 1 {
+				m.fail("C17", 0, fmt.Sprintf("after %s: paging total supply with limit %d lists %s %d times", where, limit, d, seen[d]))
+			}
+		}
+	}
 }
